@@ -9,7 +9,7 @@ import pyPRISM.core.PRISM as PRISM_mod
 
 RULE = ("(missing) 1-3 component Systems with every single item omitted in turn (each density, diameter, potential pair, closure pair, omega pair incl. diagonal pairs, the domain) and random subsets: "
         "check/createPRISM/solve raise ValueError iff something is missing and PRISM.cost is never entered; (history) random sequences (<= 10 quick / <= 30 thorough) over {edit density / diameter / kT / "
-        "domain, replace potential / closure / omega of a pair (or unset it), in-place edit of a stored potential's sigma, createPRISM, solve} on ONE System object; after every operation the hidden "
+        "domain, replace potential / closure / omega of a pair (or unset it), assign ONE potential / closure object to all pairs in one statement, in-place edit of a stored potential's sigma, createPRISM, solve} on ONE System object; after every operation the hidden "
         "object state of the System (U.sigma, closure.sigma, closure.potential per pair) and of EVERY PRISM object created so far is compared with the Lean object-store model; every new PRISM object is "
         "compared with the one of a freshly built System with the current parameters (wiring and, for solves, results) and with the value-level model; System snapshots before/after createPRISM/solve; "
         "old PRISM objects re-observed after later edits. Non-trivial = history with an edit between two creates; distinct = distinct case")
@@ -54,6 +54,8 @@ def apply_impl(s, op):
     elif k == 'dom': s.domain = None if op[1] is None else pyPRISM.Domain(length=op[1], dr=op[2])
     elif k == 'dens': s.density[T[op[1]]] = op[2]
     elif k == 'diam': s.diameter[T[op[1]]] = op[2]
+    elif k == 'potall': s.potential[s.types, s.types] = G.mk_pot(op[1])
+    elif k == 'cloall': s.closure[s.types, s.types] = G.mk_clo(op[1])
     elif k == 'pot': s.potential[T[op[1]], T[op[2]]] = None if op[3] is None else G.mk_pot(op[3])
     elif k == 'clo': s.closure[T[op[1]], T[op[2]]] = None if op[3] is None else G.mk_clo(op[3])
     elif k == 'om': s.omega[T[op[1]], T[op[2]]] = None if op[3] is None else G.mk_om(op[3])
@@ -65,6 +67,7 @@ def apply_impl(s, op):
 
 def model_line(op):
     k = op[0]
+    if k in ('potall', 'cloall'): return None
     if k == 'kT': return 'w.op kT ' + f2h(op[1])
     if k == 'dom': return 'w.op dom none' if op[1] is None else 'w.op dom %d %s' % (op[1], f2h(op[2]))
     if k == 'dens': return 'w.op dens %s %d' % (f2h(op[2]), op[1])
@@ -82,6 +85,9 @@ def model_line(op):
 def track(sd, op):
     """the current description of the System (what a freshly built System with the current parameters is)"""
     k = op[0]
+    if k in ('potall', 'cloall'):
+        for (i, j) in G.pairs_of(sd['n']): sd['pairs'].setdefault('%d%d' % (i, j), {})['pot' if k == 'potall' else 'clo'] = copy.deepcopy(op[1])
+        return
     if k == 'kT': sd['kT'] = op[1]
     elif k == 'dom': sd['dom'] = None if op[1] is None else [op[1], op[2]]
     elif k == 'dens': sd['dens'][op[1]] = op[2]
@@ -147,7 +153,7 @@ def suite_history(ctx, case):
                     p = None; impl = 'ERR rejected'
                 ncost = cc.n
             full = complete(sd)
-            if op[0] == 'solve' and impl == 'ERR rejected' and full:
+            if op[0] == 'solve' and impl != ('ok %d' % len(prisms)) and full and ncost > 0:
                 # the root finder itself failed (e.g. a singular matrix during iterations): solver behaviour, not the property
                 ctx.dist['solve:raised-in-solver'] += 1; return
             ctx.corr('history', sub, drv.ask('w.op create'), impl, what='%s outcome' % op[0])
@@ -177,7 +183,12 @@ def suite_history(ctx, case):
                                (p.sys.domain.length, float(p.sys.domain.dr))))
         else:
             ok = apply_impl(s, op)
-            ml = drv.ask(model_line(op))
+            if op[0] in ('potall', 'cloall'):
+                # ONE object assigned to all pairs in one statement: the model receives the equivalent pair-by-pair assignments
+                for (i, j) in G.pairs_of(n):
+                    ml = drv.ask(model_line(['pot' if op[0] == 'potall' else 'clo', i, j, op[1]]))
+            else:
+                ml = drv.ask(model_line(op))
             ctx.corr('history', sub, ml, 'ok' if ok else 'ERR rejected', what='edit accepted')
             if ok: track(sd, op)
         # hidden object state of the System and of every PRISM object so far
@@ -209,7 +220,10 @@ SUITES = {'history': suite_history, 'missing': suite_missing}
 
 def gen_edit(rng, sd_hint, n, L):
     dr = sd_hint['dom'][1]
-    k = rng.choice(['dens', 'diam', 'diam', 'kT', 'pot', 'pot', 'clo', 'om', 'dom', 'potsigma', 'potsigma', 'unset'])
+    k = rng.choice(['dens', 'diam', 'diam', 'kT', 'pot', 'pot', 'clo', 'om', 'dom', 'potsigma', 'potsigma', 'unset', 'potall', 'cloall'])
+    if k == 'potall': return ['potall', G.gen_pot(rng, 1.0, True, explicit_sigma=0.0)]
+    if k == 'cloall':
+        c = rng.choice(['py', 'hnc', 'msa', 'ms']); return ['cloall', [c, True if c in ('msa', 'ms') else rng.random() < 0.5]]
     i = rng.randrange(n); j = rng.randrange(i, n)
     if k == 'dens': return ['dens', i, float('%.4g' % rng.uniform(0.02, 0.5))]
     if k == 'diam': return ['diam', i, G.grid_multiple(rng, dr, 0.4, 1.6)]
